@@ -142,6 +142,8 @@ def build_history(model: list[dict], hist: dict) -> list[list[tuple]]:
     for s in chosen:
         steps += enter(s)
         steps.append(lit(b"\x22\xf1\x86"))
+        # a tester that only keeps the session alive for a while (suppressed TesterPresent: nothing is answered)
+        steps += [lit(b"\x3e\x80")] * 4 + [lit(b"\x22\xf1\x86")]
         block: list[tuple] = []
         for v in sorted(by_s[s]["svcs"], key=lambda v: v["id"]):
             if v["id"] != 0x27:
@@ -259,6 +261,8 @@ async def run_case(S, case: dict, variant: dict) -> dict:  # noqa: ANN001
             else:
                 q = bytes([0x27, arg]) + last_seed + b"\x5a"
             n += 1
+            if variant.get("pace"):
+                variant["_clk"][0] += float(variant["pace"])  # the tester's pause before this request (< 10 s)
             if variant.get("global_seed") is not None and n % 97 == 0:
                 random.seed(variant["global_seed"] + n)
             try:
@@ -281,6 +285,7 @@ def main() -> None:
     job = json.load(open(sys.argv[1]))
     variant = job["variant"]
     clk = _install_clock(variant.get("clock_base", 1.0e9))
+    variant["_clk"] = clk
     import logging
 
     logging.disable(logging.CRITICAL)
@@ -316,6 +321,7 @@ def main() -> None:
     results = asyncio.run(go())
     if variant.get("reverse"):
         results.reverse()
+    variant.pop("_clk", None)
     json.dump({"variant": variant["name"], "hashseed": __import__("os").environ.get("PYTHONHASHSEED"),
                "clock_end": clk[0], "python": sys.version.split()[0], "results": results},
               open(sys.argv[2], "w"))
